@@ -44,7 +44,7 @@ SelectSeq2(s, P(_)) == SelectSeq(s, P)
 Op(name, tgt, i, e, it) == [name |-> name, tgt |-> tgt, i |-> i, e |-> e, it |-> it]
 Idx == -3..3
 OpsX == {Op("append", "x", 0, e, <<>>) : e \in Elems}
-        \cup {Op(n, "x", 0, 0, it) : n \in {"extend", "iadd", "add"}, it \in Iters}
+        \cup {Op(n, "x", 0, 0, it) : n \in {"extend", "iadd", "add", "radd"}, it \in Iters}
         \cup {Op(n, "x", 0, 0, <<>>) : n \in {"extend_str", "extend_self", "iadd_self", "extend_y", "reverse", "copy", "tolist", "eq_y",
                                                "filter_drop", "filter_keep"}}
         \cup {Op(n, "x", k, 0, <<>>) : n \in {"imul", "mul"}, k \in 0..2}
@@ -85,6 +85,9 @@ ApplyX(st, op) ==
                              ELSE Raise(st, "TypeError")
     [] op.name = "iadd" -> IF AllGood(op.it) THEN Ok(RebindX(st, x \o op.it), NoRet) ELSE Raise(st, "TypeError")
     [] op.name = "add" -> IF AllGood(op.it) THEN Ok(NewY(st, x \o op.it, FALSE), NoRet) ELSE Raise(st, "TypeError")
+    \* <plain list or tuple> + x: the container has no reflected addition, Python raises TypeError
+    \* (the trace specification also accepts a result that holds the supplied elements first, then x's, in order)
+    [] op.name = "radd" -> Raise(st, "TypeError")
     [] op.name = "extend_str" -> Raise(st, "TypeError")
     [] op.name = "extend_self" -> Ok(PutX(st, x \o x), NoRet)
     [] op.name = "iadd_self" -> Ok(RebindX(st, x \o x), NoRet)
